@@ -203,9 +203,13 @@ fn run_case<G: AffineRepr>(env: &Env<G>, c: &Case) -> CaseOut {
                 o.evals += 1;
                 let proof = match &po.proof {
                     Ok(p) => p,
-                    Err(_) => {
-                        o.inconclusive = Some("prove failed in half-gate scenario".into());
-                        return o;
+                    Err(e) => {
+                        if expect_ok {
+                            o.inconclusive = Some(format!("prove failed in half-gate scenario: {}", err_name(e)));
+                            return o;
+                        }
+                        o.count(&format!("half-gate: {} -> prover refuses", what), 1);
+                        continue;
                     }
                 };
                 let vo = crate::interp::cur::verify_program::<G>(&prog, &po.vs, proof, &env.pc, &env.bp);
